@@ -260,7 +260,7 @@ def present(values, how, rng=None):
     """
     Present one value vector in a given way. Returns (items, valueof, names, value_map) where names is the list of
     item names in presentation order and value_map maps a name to its exact value.
-    how: list | array | array_u | array_f | dict_str | dict_int_disjoint | dict_int_overlap | dict_enum | dict_val_shift | names_str | names_int
+    how: list | array | array_u | array_f | dict_str | dict_int_disjoint | dict_int_overlap | dict_enum | dict_val_shift | dict_sub | names_str | names_int
     """
     n = len(values)
     if how == "list":
@@ -272,7 +272,7 @@ def present(values, how, rng=None):
         return np.array(values, dtype=np.uint64 if (rng is not None and rng.random() < 0.5) else np.uint32), None, list(values), None
     if how == "array_f":
         return np.array(values, dtype=np.float64), None, list(values), None
-    if how in ("dict_str", "names_str"):
+    if how in ("dict_str", "names_str", "dict_sub"):
         labels = [f"i{j:03d}" for j in range(n)]
         if rng is not None:
             rng.shuffle(labels)
@@ -304,6 +304,12 @@ def present(values, how, rng=None):
     else:
         raise KeyError(how)
     vmap = dict(zip(labels, values))
+    if how == "dict_sub":
+        # a dict SUBCLASS (OrderedDict, defaultdict, Counter): still "a dict from names to values"; code that dispatches on type(items) instead of isinstance misses it
+        import collections
+        kind = (rng.randrange(3) if rng is not None else 0)
+        d = collections.OrderedDict(vmap) if kind == 0 else (collections.defaultdict(int, vmap) if kind == 1 else collections.Counter(vmap))
+        return d, None, labels, vmap
     if how.startswith("dict"):
         return dict(vmap), None, labels, vmap
     return list(labels), vmap.__getitem__, labels, vmap
